@@ -41,6 +41,8 @@ PktV9_T  == EncV9Hdr(1, H9) \o EncV9TmplSet(<<T9(256, FA)>>, <<>>)
 PktV9_TD == EncV9Hdr(2, H9) \o EncV9TmplSet(<<T9(256, FA)>>, <<>>) \o EncDataSet(256, <<RecA(60)>>, <<0, 0>>)
 PktV9_D  == EncV9Hdr(1, H9) \o EncDataSet(256, <<RecA(70), RecA(80)>>, <<>>)
 PktV9_Short == EncV9Hdr(2, H9) \o <<0, 0, 0, 2>> \o EncDataSet(256, <<RecA(70)>>, <<>>)   \* a flowset whose length field is < 4
+PktV9_ShortLast == EncV9Hdr(1, H9) \o <<0, 0, 0, 1>>                                       \* ... as the last flowset
+PktIx_ShortSet == EncIpfixMsg(HX, <<EncIpfixTmplSet(<<T9(257, FA)>>, <<>>), <<0, 2, 0, 3>>>>)   \* a set whose length field is < 4
 PktIx_TD == EncIpfixMsg(HX, <<EncIpfixTmplSet(<<T9(256, FA)>>, <<>>), EncDataSet(256, <<RecA(90)>>, <<>>)>>)
 PktIx_D  == EncIpfixMsg(HX, <<EncDataSet(256, <<RecA(110), RecA(120)>>, <<>>)>>)
 PktIx_H  == EncIpfixMsg(HX, <<>>)
@@ -48,7 +50,8 @@ PktIx_L  == <<0, 10, 0, 9>> \o HX.export_time \o HX.seq \o HX.domain       \* he
 Blob     == <<0, 1, 2, 3>>                                                   \* version 1: not a known version
 Tail1    == <<0>>
 
-Alphabet == << PktV5_0, PktV5_1, PktV7_1, PktV9_T, PktV9_TD, PktV9_D, PktV9_Short, PktIx_TD, PktIx_D, PktIx_H, PktIx_L, Blob, Tail1 >>
+Alphabet == << PktV5_0, PktV5_1, PktV7_1, PktV9_T, PktV9_TD, PktV9_D, PktV9_Short, PktIx_TD, PktIx_D, PktIx_H, PktIx_L, Blob, Tail1,
+              PktV9_ShortLast, PktIx_ShortSet >>
 NA == Len(Alphabet)
 
 Chains(n) == UNION {[1..k -> 1..NA] : k \in 1..n}
@@ -58,7 +61,7 @@ Cuts(pk) == IF CutMode = "all" THEN 1..(Len(pk) - 1)
             ELSE {c \in {1, 2, 3, 15, 16, 17, 19, 20, 21, 23, 24, 25, 28, Len(pk) - 1} : c >= 1 /\ c < Len(pk)}
 Whole == {Concat(ch) : ch \in Chains(MaxChain)}
 CutOnes == UNION {{Concat(SubSeq(ch, 1, Len(ch) - 1)) \o SubSeq(Alphabet[ch[Len(ch)]], 1, c) : c \in Cuts(Alphabet[ch[Len(ch)]])}
-                  : ch \in Chains(IF MaxChain > 1 THEN 2 ELSE 1)}
+                  : ch \in Chains(IF CutMode = "all" /\ MaxChain > 1 THEN 2 ELSE 1)}
 MCBuffers == Whole \cup CutOnes \cup {<<>>}
 MCAllowedSets == {{5, 7, 9, 10}, {5, 7, 9, 10, 1}, {9, 10}, {5, 10}, {7, 9}, {}}
 
